@@ -4,6 +4,7 @@ from ..cfg import Body, name_matches
 from ..report import where
 from .. import orderdom as od
 from .c03 import id_through
+from .c24 import check_planner_marks_writes
 
 LEVEL = "other"
 TEXT_TESTS = ("contains", "starts_with", "ends_with", "find", "rfind", "matches", "eq_ignore_ascii_case", "strip_prefix", "split_whitespace", "to_uppercase", "to_lowercase")
@@ -58,6 +59,8 @@ def run(ctx, F, cg):
     ctx.rule("R23a", "in each front end the branch choosing execute_mut vs execute is decided by an engine classifier (plan(parse(stmt)).is_write) applied to the statement that is then executed, not by substring tests on the text")
     ctx.rule("R23b", "no mutator of the interior-mutable index managers is reachable (CHA over dyn PhysicalOperator::next/next_batch) from the read executor")
     ctx.rule("R23c", "QueryExecutor::execute returns an error for plan.is_write before any operator is pulled")
+    ctx.rule("R23d", "the classification itself is right: every plan whose root is built from an operator that can reach a store / index mutator carries is_write = true (path-linked, per ExecutionPlan literal)")
+    check_planner_marks_writes(ctx, F, cg, "R23d")
     for name, prefix in FRONT_ENDS:
         cs = [r for p, r in F.fns.items() if p.startswith(prefix) and r["coroutine"]]
         if len(cs) != 1:
@@ -100,6 +103,14 @@ def run(ctx, F, cg):
             ctx.violation("R23a", "%s|routing-not-from-engine" % name, where(r, b.blocks[i]["l"]), "the routing decision does not come from an engine classifier")
             continue
         k = local[0]
+        # the decision is the classifier's answer on every path: no constant, no second source
+        others = [o for o in og if o[0] in ("const", "arg", "other", "bin", "agg") or (o[0] == "call" and o[1].bb != k.bb)]
+        if others:
+            o = others[0]
+            what = "a constant" if o[0] == "const" else ("%s" % o[1].path if o[0] == "call" else o[0])
+            ctx.violation("R23a", "%s|decision-bypasses-classifier" % name, where(r, k.line),
+                          "%s takes the routing decision from %s on some path instead of asking the engine classifier (a statement routed by that shortcut is not run the way the engine runs it)" % (name, what))
+            continue
         ok, why = engine_classifier_verdict(F, k.path)
         ctx.saw_fn(k.path)
         # classifier applied to the same string as both executions
